@@ -21,7 +21,7 @@ Your task: make a realistic, small change (a plausible bug a developer could int
 
 Requirements:
 1. The existing tests must still pass with your change. Run them:  cd {wt} && PYTHONPATH={wt} /venv/bin/python -m pytest -q -p no:cacheprovider -n 6 --timeout=900 tests   (about 2-4 minutes; all 127 must pass). If a test fails, choose a different change.
-2. Write a demonstration {wt}/seed/demo.py : a small self-contained program using the public adcgen API that exits 0 on the ORIGINAL code and exits non-zero (assert failure) WITH your change, because the property is violated (compare against a hand-computed / independently computed expected value; do not merely compare against a stored string). Verify both: run it with your change (must fail), then `git stash`, run it (must pass), then `git stash pop`.
+2. Write a demonstration {wt}/seed/demo.py : a small self-contained program using the public adcgen API that exits 0 on the ORIGINAL code and exits non-zero (assert failure) WITH your change, because the property is violated (compare against a hand-computed / independently computed expected value; do not merely compare against a stored string). Verify both: run it with your change (must fail), then undo it with `git diff -- adcgen > /tmp/{pid}_mine.diff && git apply -R /tmp/{pid}_mine.diff`, run it (must pass), then `git apply /tmp/{pid}_mine.diff` (do NOT use git stash: the stash is shared between worktrees).
 3. Write the change as a patch:  cd {wt} && git diff -- adcgen > seed/patch.diff   (create the seed directory; the patch must apply to a clean checkout with `git apply`).
 4. Write {wt}/seed/meta.json with keys: property (="{pid}"), summary (one sentence: what was changed), needs (what is needed for the violation to manifest), files (list), tests_passed (true/false + the pytest summary line), demo_fails_with_change (true/false), demo_passes_without_change (true/false).
 5. Leave the worktree with your change applied and the seed/ directory present. Do not commit.
